@@ -92,3 +92,46 @@ Definition vroot_case (fen : string) (ms : list string) (depth : nat) :=
                                  map (fun m => (enc_ply m, c_move_value depth b m)) (get_legal_moves b))
                end
   end.
+
+(* ---- a small mate oracle on the chess model (for the C12 check) ---- *)
+Definition is_mated (b : Board) : bool :=
+  match get_legal_moves b with [] => is_in_check b (current_turn b) | _ => false end.
+Definition mating_moves (b : Board) : list Ply := filter (fun m => is_mated (make_move b m)) (get_legal_moves b).
+(* the side to move can force mate within n of its own moves *)
+Fixpoint wins_in (n : nat) (b : Board) : bool :=
+  match n with
+  | O => false
+  | S k => existsb (fun m => let b1 := make_move b m in
+                             if is_mated b1 then true
+                             else match get_legal_moves b1 with
+                                  | [] => false
+                                  | rs => forallb (fun r => wins_in k (make_move b1 r)) rs
+                                  end) (get_legal_moves b)
+  end.
+(* after move m (given by notation) the opponent, now to move, is lost within n more moves of ours *)
+Definition keeps_mate (n : nat) (b : Board) (m : Ply) : bool :=
+  let b1 := make_move b m in
+  if is_mated b1 then true
+  else match get_legal_moves b1 with [] => false | rs => forallb (fun r => wins_in n (make_move b1 r)) rs end.
+Definition allows_mate_in_one (b : Board) (m : Ply) : bool :=
+  match mating_moves (make_move b m) with [] => false | _ => true end.
+(* per position: notations of mating moves; whether a mate in <= 2 exists; for every legal move
+   whether it allows the opponent a mate in one *)
+Definition mate_facts (fen : string) (ms : list string) :=
+  match from_fen fen with
+  | None => None
+  | Some b0 => match play b0 ms with
+               | None => None
+               | Some b => Some (map to_notation (mating_moves b), wins_in 2 b,
+                                 map (fun m => (to_notation m, allows_mate_in_one b m)) (get_legal_moves b))
+               end
+  end.
+(* does the move given by notation keep a forced mate within n more moves of the mover *)
+Definition keeps_mate_case (fen : string) (ms : list string) (mv : string) (n : nat) : option bool :=
+  match from_fen fen with
+  | None => None
+  | Some b0 => match play b0 ms with
+               | None => None
+               | Some b => match find_move b mv with Some m => Some (keeps_mate n b m) | None => None end
+               end
+  end.
